@@ -93,6 +93,12 @@ def run_auto(sc):
                     getattr(a, op[0])(op[1], **args)
                 elif op[0] == "jump_to":
                     a.jump_to(op[1])
+                elif op[0] == "set_range":
+                    a.range = None if op[1] is None else tuple(op[1])
+                elif op[0] == "set_boundaries":
+                    a.boundaries = op[1]
+                elif op[0] == "set_default":
+                    a.default_duration = op[1]
                 elif op[0] == "bind":
                     ident = nbind[0]
                     nbind[0] += 1
